@@ -216,7 +216,7 @@ def snapshot(env):
 
 # ---------------- generation (adaptive: kinds are read off the implementation) ----------------
 def gen_history(rng, nops, nvars0=2, R=8, ops=("bin", "copy", "not", "move", "scale", "rot", "contains", "float"),
-                weights=None, gen=None):
+                weights=None, gen=None, signed_scale=False):
     """random history; transformations are only applied to non-singleton variables"""
     from . import gen as G
     gen = gen or (lambda: G.any_shape(rng, R=R, kinds=("S", "S", "C", "D", "U")))
@@ -252,6 +252,12 @@ def gen_history(rng, nops, nvars0=2, R=8, ops=("bin", "copy", "not", "move", "sc
             op = ("move", x, (F(rng.randint(-12, 12), rng.choice([1, 2, 3])), F(rng.randint(-12, 12), rng.choice([1, 4]))))
         elif k == "scale":
             op = ("scale", x, (F(rng.randint(1, 8), rng.choice([1, 2, 3])), F(rng.randint(1, 8), rng.choice([1, 2, 5]))))
+            if signed_scale and rng.random() < 0.5:
+                # reflections / point reflections (the library accepts any non-zero factors)
+                # point reflections only (det > 0): a mirror flips bounded <-> unbounded and turns composite
+                # shapes into objects that are not valid shapes any more
+                k = rng.choice([(-1, -1), (-2, -2), (F(-1, 2), F(-1, 2)), (-3, -2), (-1, -4)])
+                op = ("scale", x, (F(k[0]), F(k[1])))
         elif k == "rot":
             op = ("rot", x, rng.choice([(F(3, 5), F(4, 5)), (F(0), F(1)), (F(-4, 5), F(3, 5)), (F(5, 13), F(-12, 13))]))
         elif k == "contains":
@@ -292,10 +298,16 @@ def resplit_of(d0, d1, exact=True):
             if i < len(va) and p == va[i]:
                 i += 1
             else:
-                # p must lie on the edge va[i-1] -> va[i % n]
+                # p must lie on the edge va[i-1] -> va[i % n] (float data: within 1e-9 of it)
                 q0, q1 = va[i - 1], va[i % len(va)]
-                if not O.on_edge(q0, q1, p):
-                    return False
+                if exact:
+                    if not O.on_edge(q0, q1, p):
+                        return False
+                else:
+                    from .opcases import dist2_point_seg
+                    scale = max(1, abs(q0[0]), abs(q0[1]), abs(q1[0]), abs(q1[1]))
+                    if dist2_point_seg(p, q0, q1) > (F(1, 10 ** 9) * scale) ** 2:
+                        return False
         if i != len(va):
             return False
     return True
